@@ -21,11 +21,14 @@ PROP = dict(
           "the current values; the live object must answer has()/[] with the value just set. "
           "inilong: small files (0..5 lines) and 1..5 sets that create sections, keys and values whose lengths lie around the 255/256-byte buffer of the "
           "library's formatting helper (248..262 uniformly, 251..257 and 509..513, and 1..600), also for names already in the file; same oracle. "
+          "inidup: files in which a key has 2..3 lines with different old values (in one section, before the first section, or under a repeated section "
+          "header) and that key is set(): every fresh reader returns the set value; in the raw-file check only the LAST line of a key is judged (what a "
+          "reader takes), unset duplicated keys are modelled by their last line. "
           "csv: tables of 1..8 uniquely named identifier columns (given by columns(Array), columns(\"a,b\") or the constructor) and 0..30 rows of "
           "cells: ints (full 32-bit range and small), doubles (random bit patterns mapped into {0,-0} U [2^-962, 2^963), powers of ten, decimal "
           "fractions, 15- and 16-digit values, products with 1e+-30, 1e+-200), empty strings, strings of up to 60 chars (a few of 248..262 and up to 600) over letters, digits . - + "
           "(never first), blank , ; \" ' _ % including the hand-picked quote/separator shapes and percent shapes (X% full, %s, %d, % d, %%, %5.2f; never a %n form); tables of >= 2 columns also with setSeparator(';') + setDecimal(',') (the format the reader infers from a ';' header; string "
-          "cells then do not start with ',') and with setSeparator(TAB); rows written cell by cell with << (int, double, "
+          "cells then do not start with ',') and with setSeparator(TAB); separators '|' and ' ' (any column count) and ';' for one-column tables, which cannot be recognised from the header, are set with setSeparator() on writer AND reader; rows written cell by cell with << (int, double, "
           "String, const char*) or as one array Var. Oracle: the file is read back with data() and with nextRow() + operator[](int) + "
           "operator[](name): column names, row count and row lengths equal, string cells come back as strings with identical bytes, int cells as "
           "numbers equal to the int, double cells as numbers with |r-x| <= 6e-15|x| (rounding to 15 significant digits moves a value by at most "
